@@ -6,4 +6,15 @@ CHECKS = {
             "Bounded small-scope claim: programs and bounds listed in the evidence file; sync (thread-pool) steps not covered.", ENGINE_TECH),
 }
 
+CHECKS.update({
+    "C03": ("6/C03", "All schedules (gate releases, external sends, timer firings) of the engine catalog plus idle-specific programs; at the instant an idle announcement is written the runner's queues, in-progress sets, retry heap, tick buffer and mailbox are inspected; work conservation checked in every quiescent live state.",
+            "Three genuine defects are recorded in known_findings.json (idle announced with mail in the mailbox / during a retry delay); any other violation is reported.", ENGINE_TECH),
+    "C04": ("6/C04", "21 outcome causes (stops, races, raises, handler failure, non-event return, failing user retry code, cancel and timeout at every quiescent point) x all schedules; each maximal execution is checked for exactly one outcome, one matching terminal event, nothing after it, and a terminating stream consumer.",
+            "Bounded small-scope claim; deviation bound 4 on the largest race program in the quick tier.", ENGINE_TECH),
+    "C11": ("6/C11", "At every quiescent point of every schedule of the engine catalog (incl. resumed runs) the live runner state is compared with rebuild_state_from_ticks(init_state, recorded ticks) and with ctx.to_dict()/running_steps.",
+            "Timestamps masked, as the property allows.", ENGINE_TECH),
+    "C35": ("6/C35", "All schedules of the engine catalog; per processed tick PREPARING publications are compared with the queue growth, open RUNNING slots are compared with the runner's in-progress set in every quiescent live state, per-slot (RUNNING NOT_RUNNING)* language, InputRequiredEvent published once.",
+            "Telemetry is tied to the runner's queue / in_progress sets (the anchors named by the property).", ENGINE_TECH),
+})
+
 NOT_APPLICABLE = {}
